@@ -15,16 +15,15 @@ func VectorAggregation(
 	iter iterators.Iterator[Step],
 	expr *logql.VectorAggregationExpr,
 ) (StepIterator, error) {
+	// Without a grouping clause all series form one group with an empty label set: `by ()`.
 	var (
-		grouper     = nopGrouper
+		grouper     grouperFunc = AggregatedLabels.By
 		groupLabels []logql.Label
 	)
 	if g := expr.Grouping; g != nil {
 		groupLabels = g.Labels
 		if g.Without {
 			grouper = AggregatedLabels.Without
-		} else {
-			grouper = AggregatedLabels.By
 		}
 	}
 
